@@ -124,14 +124,12 @@ where
     let (buffer, space) = any_writer_state::<W>();
     let v: u64 = kani::any();
     let n: usize = kani::any();
-    kani::assume(n < 64 && (v >> n) != 0);
+    kani::assume(n < 64 && (v >> n) != 0); // every width 0..=63 (a 64-bit argument cannot be dirty)
     let mut w = Wr::<E, W, 10>::verif_from_parts(Rec::new(), buffer, space);
     let _ = w.write_bits(v, n);
     core::mem::forget(w);
-    // not reached if the argument check fired
-    let a: u8 = kani::any();
-    kani::assume(a == 255);
-    let _overflow = a + 1;
+    // not reached if the argument check fired (the driver expects the library's own panic and nothing else, see Obl.expect_panic)
+    kani::assert(false, "OBS c19.checks.panic: write_bits returned although its argument has a bit at or above n_bits (the argument check did not fire)");
 }
 
 /// Bounded in the observation window only: the ghost backend holds `K` words;
@@ -339,7 +337,6 @@ macro_rules! c01_for {
             harness!(c01_drop, 2, drop_::<$e, $w>());
             #[cfg(feature = "checks")]
             #[kani::proof]
-            #[kani::should_panic]
             #[kani::unwind(11)]
             pub fn c19_write_bits_dirty_panics() {
                 write_bits_dirty_panics::<$e, $w>()
